@@ -249,4 +249,13 @@ theorem tcp_stream_roundtrip32 (A : AeadFns) (hA : AeadLaws32 A) (segs : List (S
     exact e k hk' hne
   · exact Or.inr h
 
+/-- the toy AEAD of the non-vacuity examples is lawful (on every size, hence on 32 / 24) -/
+theorem toy_laws32 : AeadLaws32 toyAead where
+  seal_len k n p _ _ := by simp [toyAead, toyTag_len]
+  open_seal k n p _ _ := by
+    simp only [toyAead, List.length_append, toyTag_len]
+    have h1 : p.length + 16 - 16 = p.length := by omega
+    rw [h1, List.drop_left' rfl, List.take_left' rfl]
+    simp
+
 end Mieru.Spec
